@@ -13,7 +13,7 @@ import ast
 from typing import Any, Callable
 
 from .core import AnalysisError
-from .ordabs import Ev, Obj
+from .ordabs import Ev, ModelRaise, Obj
 from .repo import Repo
 
 
@@ -215,3 +215,38 @@ def new_parser_state(cm: ClassModel, text: str, pos: int, parser: Any, where: st
     if missing:
         raise AnalysisError(f"{where}: ParserState.__init__ does not set {missing} from a parameter")
     return cm.new("ParserState", **{fs["input"]: text, fs["pos"]: pos, fs["parser"]: parser})
+
+
+def install_re(cm: ClassModel) -> None:
+    """The standard library's `re` as an oracle on the model: re.compile returns a model Pattern that records
+    pattern and flags and answers match / fullmatch / search through the real engine; module-level
+    ``RE_X = re.compile(...)`` constants of the modelled files are rebuilt through it."""
+    import re  # noqa: PLC0415
+
+    def compile_(_s: Obj, pat: str, flags: int = 0) -> Obj:
+        try:
+            rx = re.compile(pat, flags & (re.I | re.A | re.M | re.S | re.X))
+        except re.error as err:
+            raise ModelRaise(f"regex.error: {err}") from err
+        o = Obj("Pattern", pattern=pat, flags=flags)
+
+        def wrap(m):  # noqa: ANN001, ANN202
+            if m is None:
+                return None
+            mo = Obj("Match")
+            mo.__dict__.update(group=lambda *a: m.group(*a), end=lambda *a: m.end(*a), start=lambda *a: m.start(*a), groups=lambda: m.groups(), span=lambda *a: m.span(*a),
+                               __getitem__=lambda i: m[i])
+            return mo
+
+        o.__dict__.update(match=lambda s, *a: wrap(rx.match(s, *a)), fullmatch=lambda s, *a: wrap(rx.fullmatch(s, *a)), search=lambda s, *a: wrap(rx.search(s, *a)))
+        return o
+
+    cm._cache[("re", "compile")] = compile_  # noqa: SLF001
+    cm._cache[("re", "escape")] = lambda _s, x: re.escape(x)  # noqa: SLF001
+    for r in cm.rels:
+        for n in cm.repo.mod(r).tree.body:
+            if isinstance(n, ast.Assign) and isinstance(n.targets[0], ast.Name) and isinstance(n.value, ast.Call) and ast.unparse(n.value.func) in ("re.compile", "regex.compile"):
+                try:
+                    cm.env[n.targets[0].id] = cm._ev().ev(n.value)  # noqa: SLF001
+                except Exception:  # noqa: BLE001, S110
+                    pass  # left unbound: reported as unsupported if something needs it
